@@ -1151,6 +1151,13 @@ def run(ck: Ck) -> None:
             ck.hist('id_manager_paths', c, len(idp))
         obs['output_field_count_and_recombination'] = '(Nat.eqb gen_out_exact_fields 5 && Nat.eqb gen_out_recombine_from 6)%bool'
         obs['output_field_order_agrees'] = ('(nlist_eqb gen_out_write_order (0 :: 1 :: 2 :: 3 :: 4 :: nil)%N && nlist_eqb gen_out_read_order (0 :: 1 :: 2 :: 3 :: 4 :: nil)%N)%bool')
+        # the hypotheses of the composed statement c06_property hold for what was generated from today's source (the example the
+        # statement is not vacuous for): write programs, parser sites, class table, ID managers of every kind, membership loops, viewports
+        kinds = ' :: '.join(f'"{a}"' for a in sorted(idm.get('managers', {}))) + ' :: nil'
+        obs['property_hypotheses_hold_for_todays_source'] = (
+            '(table_ok vmf_nums vmf_progs && pcfg_ok gen_parsecfg && forallb lite_paired lite_classes && '
+            f'forallb (kind_ok gen_id_classes gen_id_managers gen_id_sites) ({kinds}) && member_loops_ok gen_member_loops && '
+            'vp_ok gen_vp_tiers gen_vp_tbl gen_vp_inv)%bool')
         res = ck.instance_obligations(IMPORTS, obs, name='c06')
         if not all(res.values()):
             ck.tie_broken.append('instance obligations failed: ' + ', '.join(k for k, v in res.items() if not v))
